@@ -206,7 +206,7 @@ func (w *gworld) toGo(g *gv) any {
 	case "tstruct":
 		key := ""
 		if w.share {
-			key = showTerm(g.toTerm())
+			key = g.coqG() // distinguishes a nil slice from an empty one
 			if v, ok := w.built[key]; ok {
 				return v
 			}
@@ -225,7 +225,7 @@ func (w *gworld) toGo(g *gv) any {
 		keys := make([]string, len(g.F))
 		if w.share {
 			for i, e := range g.F {
-				keys[i] = showTerm(e.toTerm())
+				keys[i] = e.coqG()
 			}
 		search:
 			for _, sl := range w.slices {
